@@ -68,10 +68,10 @@ func (r *recorder) In(sid pipeline.SourceID, name string, _ pipeline.Offsets, da
 	r.mu.Unlock()
 	return s
 }
-func (r *recorder) UseSpread()                       {}
-func (r *recorder) DisableStreams()                  {}
-func (r *recorder) SuggestDecoder(decoder.Type)      {}
-func (r *recorder) IncReadOps()                      {}
+func (r *recorder) UseSpread()                        {}
+func (r *recorder) DisableStreams()                   {}
+func (r *recorder) SuggestDecoder(decoder.Type)       {}
+func (r *recorder) IncReadOps()                       {}
 func (r *recorder) IncMaxEventSizeExceeded(...string) {}
 
 func (r *recorder) noteStatus(code int) {
@@ -90,7 +90,7 @@ type respWriter struct {
 	hdr http.Header
 }
 
-func (w *respWriter) Header() http.Header { return w.hdr }
+func (w *respWriter) Header() http.Header  { return w.hdr }
 func (w *respWriter) WriteHeader(code int) { w.rec.noteStatus(code) }
 func (w *respWriter) Write(b []byte) (int, error) {
 	w.rec.noteStatus(http.StatusOK) // implicit 200 at the first body write
